@@ -684,6 +684,28 @@ func runC20(c *Ctx) {
 		emit(&qPath{root: '$', parts: []qPart{{kind: 'k', name: "e"}, {kind: 'f', group: &qGroup{ops: []qOp{{path: &qPath{root: '@', parts: []qPart{{kind: 'k', name: "x"}, {kind: 'c', name: "Greater", args: []qArg{{path: keyless("Add", "ab")}}}}}}}}}, {kind: 'c', name: "Count"}}}, nil, "named/keyless-at-paths")
 		emit(&qPath{root: '$', parts: []qPart{{kind: 'k', name: "a"}, {kind: 'c', name: "AnyOf", args: []qArg{{group: &qGroup{mode: "OR", ops: []qOp{{path: keyless("Greater", "de")}}}}}}}}, nil, "named/keyless-at-paths")
 	}
+	// root fields spelled in both letter cases in one query (the list is sorted as strings are), and one key name at two depths with
+	// the deeper use met first (its chain is no run in the middle of another chain)
+	{
+		dk := func(fn string, ks ...string) *qPath {
+			p := &qPath{root: '$'}
+			for _, k := range ks {
+				p.parts = append(p.parts, qPart{kind: 'k', name: k})
+			}
+			if fn != "" {
+				p.parts = append(p.parts, qPart{kind: 'c', name: fn, args: []qArg{{lit: "1"}}})
+			}
+			return p
+		}
+		emit(nil, &qGroup{mode: "OR", ops: []qOp{{path: dk("Equal", "Zeta")}, {path: dk("Equal", "alpha")}}}, "named/mixed-case-roots")
+		emit(nil, &qGroup{mode: "AND", ops: []qOp{{path: dk("Equal", "a")}, {path: dk("Equal", "B")}, {path: dk("Equal", "c")}}}, "named/mixed-case-roots")
+		emit(&qPath{root: '$', parts: []qPart{{kind: 'k', name: "List"}, {kind: 'f', group: &qGroup{ops: []qOp{{path: &qPath{root: '@', parts: []qPart{{kind: 'k', name: "x"}, {kind: 'c', name: "Less", args: []qArg{{path: dk("", "limit")}}}}}}}}}}}, nil, "named/mixed-case-roots")
+		emit(nil, &qGroup{mode: "OR", ops: []qOp{{path: dk("Equal", "Limit")}, {path: dk("Equal", "count")}, {path: dk("Equal", "limit")}}}, "named/mixed-case-roots")
+		emit(nil, &qGroup{ops: []qOp{{path: dk("Equal", "a", "b")}, {path: dk("Equal", "b")}}}, "named/one-name-at-two-depths")
+		emit(&qPath{root: '$', parts: []qPart{{kind: 'k', name: "c"}, {kind: 'c', name: "Equal", args: []qArg{{path: dk("", "a", "c")}}}}}, nil, "named/one-name-at-two-depths")
+		emit(nil, &qGroup{ops: []qOp{{path: dk("Equal", "a", "b", "c", "d")}, {path: dk("Equal", "b", "c")}, {path: dk("Equal", "c")}, {path: dk("Equal", "d")}}}, "named/one-name-at-two-depths")
+		emit(nil, &qGroup{ops: []qOp{{path: &qPath{root: '$', parts: []qPart{{kind: 'k', name: "a"}, {kind: 'k', name: "b"}, {kind: 'f', group: &qGroup{ops: []qOp{{path: &qPath{root: '@', parts: []qPart{{kind: 'k', name: "c"}, {kind: 'c', name: "Equal", args: []qArg{{lit: "1"}}}}}}}}}, {kind: 'c', name: "Any"}}}}, {path: dk("Equal", "b")}}}, "named/one-name-at-two-depths")
+	}
 	// `@` paths as ARGUMENTS at the top level (the value the function is applied to is not a collection being filtered): their chains stand
 	// on their own
 	{
